@@ -135,29 +135,36 @@ theorem parseExternName_ok_string {st : PState} (h : peekTok st = some .String) 
     parseExternName st = .ok (.String (stringAt (tokAt st)), adv st) :=
   parseExternName_eq_ok.mpr (.inr ⟨h, rfl, rfl⟩)
 
-/-- completeness of `statement`, given completeness of its `import` and type-statement parts -/
-theorem gStatement_complete (hV : SemverAgree) (gf : Nat)
-    (hImp : Complete eraseImportStatement parseImportStatement gImportStatement (fun _ => True) gf)
-    (hTy : Complete eraseTypeStatement parseTypeStatement gTypeStatement (fun _ => True) gf)
-    (hImpFirst : ∀ st x r, (x, r) ∈ gImportStatement gf (abs st) → peekTok st = some .ImportKeyword)
-    (hTyFirst : ∀ st x r, (x, r) ∈ gTypeStatement gf (abs st) → peekIn st typeStatementPeeks = true) :
-    Complete eraseStatement parseStatement gStatement (fun _ => True) gf := by
-  intro st x r h _ pf hpf
+/-- completeness of `statement` at a state, given completeness of its `import` and
+type-statement parts at that state -/
+theorem gStatement_complete (hV : SemverAgree) (gf : Nat) (st : PState)
+    (hImp : ∀ x r, (x, r) ∈ gImportStatement gf (abs st) → ∀ pf, gf + 2 ≤ pf →
+      ∃ x0 st', parseImportStatement pf st = .ok (x0, st') ∧ eraseImportStatement x0 = x ∧ abs st' = r ∧
+        st'.toks.length < st.toks.length)
+    (hTy : ∀ x r, (x, r) ∈ gTypeStatement gf (abs st) → ∀ pf, gf + 2 ≤ pf →
+      ∃ x0 st', parseTypeStatement pf st = .ok (x0, st') ∧ eraseTypeStatement x0 = x ∧ abs st' = r ∧
+        st'.toks.length < st.toks.length)
+    (hImpFirst : ∀ x r, (x, r) ∈ gImportStatement gf (abs st) → peekTok st = some .ImportKeyword)
+    (hTyFirst : ∀ x r, (x, r) ∈ gTypeStatement gf (abs st) → peekIn st typeStatementPeeks = true) :
+    ∀ x r, (x, r) ∈ gStatement gf (abs st) → ∀ pf, gf + 2 ≤ pf →
+      ∃ x0 st', parseStatement pf st = .ok (x0, st') ∧ eraseStatement x0 = x ∧ abs st' = r ∧
+        st'.toks.length < st.toks.length := by
+  intro x r h pf hpf
   simp only [gStatement, alt_apply, List.mem_append] at h
   rcases h with ((h | h) | h) | h
   · -- import
     simp at h
     obtain ⟨s, hs, rfl⟩ := h
-    have k1 := hImpFirst _ _ _ hs
-    obtain ⟨s0, st', h0, rfl, rfl, hl⟩ := hImp _ _ _ hs trivial pf hpf
+    have k1 := hImpFirst _ _ hs
+    obtain ⟨s0, st', h0, rfl, rfl, hl⟩ := hImp _ _ hs pf hpf
     refine ⟨.Import s0, st', ?_, rfl, rfl, hl⟩
     simp [parseStatement, k1, h0]
   · -- type statement
     simp at h
     obtain ⟨s, hs, rfl⟩ := h
-    have hin := hTyFirst _ _ _ hs
+    have hin := hTyFirst _ _ hs
     obtain ⟨k, k1, hk⟩ := (peekIn_iff _ _).mp hin
-    obtain ⟨s0, st', h0, rfl, rfl, hl⟩ := hTy _ _ _ hs trivial pf hpf
+    obtain ⟨s0, st', h0, rfl, rfl, hl⟩ := hTy _ _ hs pf hpf
     refine ⟨.Type' s0, st', ?_, rfl, rfl, hl⟩
     have h1 : k ≠ .ImportKeyword := by rintro rfl; simp [typeStatementPeeks, typeDeclPeeks] at hk
     have h2 : k ≠ .LetKeyword := by rintro rfl; simp [typeStatementPeeks, typeDeclPeeks] at hk
